@@ -24,6 +24,9 @@ class MachineryError(Exception):
     pass
 
 
+CURRENT = None      # the Outcome of the running check (so that main_wrapper can still report what was found)
+
+
 def seed_from_env(default=20260927):
     try:
         return int(os.environ.get('VERIF_SEED', default))
@@ -53,6 +56,9 @@ class Outcome:
     """Collects what one check run covered and what it found."""
 
     def __init__(self, prop, tier, seed):
+        global CURRENT
+        if CURRENT is None:          # the first Outcome of a run is the check's own (helpers create scratch ones)
+            CURRENT = self
         self.prop = prop
         self.tier = tier
         self.seed = seed
@@ -141,9 +147,24 @@ def _safe(s):
 
 
 # --------------------------------------------------------------------------- parallel map
+_INIT_ERR = None
+
+
 def _init_worker(init, initargs):
-    if init:
-        init(*initargs)
+    # an exception escaping a Pool initializer makes the pool respawn workers for ever
+    global _INIT_ERR
+    try:
+        if init:
+            init(*initargs)
+    except BaseException:
+        _INIT_ERR = traceback.format_exc()
+
+
+def _guarded(job):
+    fn, x = job
+    if _INIT_ERR:
+        raise MachineryError('worker initialisation failed:\n' + _INIT_ERR)
+    return fn(x)
 
 
 def pmap(fn, items, nproc=None, init=None, initargs=(), chunksize=None, maxtasks=None):
@@ -152,12 +173,12 @@ def pmap(fn, items, nproc=None, init=None, initargs=(), chunksize=None, maxtasks
     nproc = min(nproc or NCPU, max(1, len(items)))
     if nproc <= 1 or len(items) < 4:
         _init_worker(init, initargs)
-        return [fn(x) for x in items]
+        return [_guarded((fn, x)) for x in items]
     ctx = mp.get_context('fork')
     cs = chunksize or max(1, len(items) // (nproc * 8))
     with ctx.Pool(nproc, initializer=_init_worker, initargs=(init, initargs),
                   maxtasksperchild=maxtasks) as pool:
-        return pool.map(fn, items, chunksize=cs)
+        return pool.map(_guarded, [(fn, x) for x in items], chunksize=cs)
 
 
 # --------------------------------------------------------------------------- trace batches
@@ -210,14 +231,26 @@ def validate_traces(spec, cfg, traces, chunk=None, nproc=None, timeout=1800, env
 
 
 def main_wrapper(fn):
-    """Run a check's main(); machinery failures exit 2 and are never phrased as violations."""
+    """Run a check's main(); machinery failures exit 2 and are never phrased as violations.
+    Violations of the real code that TLC had already judged when a later step (typically a
+    sensitivity self-test that no longer fits a changed tree) failed are still reported: a
+    self-test must not turn a detection into a machinery failure."""
     try:
         rc = fn()
     except (MachineryError, tlc.TLCError) as e:
         print('MACHINERY-FAILURE: %s' % e, file=sys.stderr)
-        sys.exit(2)
+        rc = _salvage()
     except Exception:
         traceback.print_exc()
         print('MACHINERY-FAILURE: unexpected harness exception', file=sys.stderr)
-        sys.exit(2)
+        rc = _salvage()
     sys.exit(rc)
+
+
+def _salvage():
+    out = CURRENT
+    if out is not None and any(v['sig'] not in known_findings(out.prop) for v in out.violations):
+        out.extra['machinery_failure_after_verdict'] = True
+        if out.finish() == 1:
+            return 1
+    return 2
